@@ -498,11 +498,13 @@ def filter_specs(draw, spec):
         f"tag:{t}" for t in TAGS if t not in tags
     ]
     # near misses: filters are case-sensitive and match whole names / types / tags
+    near_misses = []
     for near in (names[0].swapcase(), names[0][:-1], names[-1] + "-b", f"type:{types[0].upper()}", f"type:{types[0][:-1]}") + tuple(
-        f"tag:{t.upper()}" for t in tags[:1]
+        f"tag:{v}" for t in tags[:2] for v in (t.upper(), t[:-1], t[1:], t + "s") if v
     ):
-        if near and near not in names and near not in absent and near not in present:
-            absent.append(near)
+        if near and near not in names and near not in absent and near not in present and near not in near_misses:
+            near_misses.append(near)
+    absent += near_misses
     parallels = [el for el in m if el["kind"] == "parallel"]
     kinds = ["generic", "generic", "generic", "absent-only"]
     if parallels:
@@ -510,7 +512,7 @@ def filter_specs(draw, spec):
     kind = draw(st.sampled_from(kinds))
     mode = draw(st.sampled_from(["exclude", "include"]))
     if kind == "generic":
-        filters = draw(st.lists(st.sampled_from(present + absent[:3] + absent[-3:]), min_size=1, max_size=3, unique=True))
+        filters = draw(st.lists(st.sampled_from(present + absent[:3] + near_misses), min_size=1, max_size=3, unique=True))
     elif kind == "absent-only":
         filters = draw(st.lists(st.sampled_from(absent), min_size=1, max_size=2, unique=True))
     elif kind == "all-of-parallel":
